@@ -121,8 +121,124 @@ inline std::string gen_label(Rng& r, uint32_t len) {
   return o;
 }
 
+// One IPv4 "number" in any of the spellings the Standard knows (decimal, 0x/0X hex with digits of either case,
+// leading-zero octal - including the invalid digits 8 and 9 -, empty), plus near misses.
+inline std::string gen_ipv4_number(Rng& r) {
+  static const char hexd[] = "0123456789abcdefABCDEF";
+  switch (r.below(10)) {
+    case 0: case 1: case 2: return std::to_string(r.chance(1, 6) ? r.below(70000) : r.below(256));
+    case 3: case 4: {  // hex
+      std::string o = r.chance(1, 2) ? "0x" : "0X";
+      int n = r.below(5);  // may be empty: "0x" is 0
+      for (int i = 0; i < n; i++) o += hexd[r.below(22)];
+      if (r.chance(1, 12)) o += 'g';
+      return o;
+    }
+    case 5: case 6: {  // octal-looking
+      std::string o = "0";
+      int n = r.range(1, 4);
+      for (int i = 0; i < n; i++) o += char('0' + r.below(r.chance(1, 4) ? 10 : 8));
+      return o;
+    }
+    case 7: return "";
+    case 8: return std::to_string(4294967295u - r.below(3)) + (r.chance(1, 2) ? "" : "0");
+    default: return std::to_string(r.below(10));
+  }
+}
+// Host whose last label is a number (so the IPv4 parser decides), with an optional domain-looking prefix.
+inline std::string gen_ipv4ish_host(Rng& r) {
+  std::string o;
+  int parts = r.chance(1, 4) ? r.range(1, 5) : 4;
+  if (r.chance(1, 5)) {  // "example.0X10", "a.b.09"
+    o = gen_label(r, r.range(1, 8));
+    for (auto& c : o)
+      if (r.chance(1, 6)) c = char(toupper(c));
+    parts = r.range(1, 2);
+    o += ".";
+  }
+  for (int i = 0; i < parts; i++) {
+    if (i) o += ".";
+    o += gen_ipv4_number(r);
+  }
+  if (r.chance(1, 6)) o += ".";
+  return o;
+}
+// Bracketed IPv6 literal built from its grammar: pieces, one optional "::" at any position, optional IPv4 tail,
+// random case / leading zeros; sometimes one piece too many or too few, or a stray character.
+inline std::string gen_ipv6_host(Rng& r) {
+  static const char hexd[] = "0123456789abcdefABCDEF";
+  bool v4 = r.chance(1, 3);
+  int total = v4 ? 6 : 8;  // 16-bit pieces before the IPv4 tail
+  int comp = r.chance(2, 3) ? int(r.below(uint32_t(total))) : -1;  // position of "::" or none
+  int npieces = comp >= 0 ? int(r.below(uint32_t(total))) : total;  // "::" stands for >= 1 zero pieces
+  if (comp >= 0 && r.chance(1, 4)) npieces = total - 1;  // the longest form a "::" allows
+  if (r.chance(1, 10)) npieces += r.chance(1, 2) ? 1 : -1;
+  if (npieces < 0) npieces = 0;
+  if (comp > npieces) comp = npieces;
+  if (comp >= 0 && r.chance(1, 3)) comp = r.chance(1, 2) ? 0 : npieces;  // leading / trailing "::"
+  std::vector<std::string> pcs;
+  for (int i = 0; i < npieces; i++) {
+    std::string q;
+    int nd = r.chance(1, 20) ? 5 : int(r.range(1, 4));
+    for (int k = 0; k < nd; k++) q += hexd[r.chance(1, 3) ? 0 : r.below(22)];
+    pcs.push_back(q);
+  }
+  auto join = [&](int lo, int hi) {
+    std::string o;
+    for (int i = lo; i < hi; i++) {
+      if (i > lo) o += ":";
+      o += pcs[size_t(i)];
+    }
+    return o;
+  };
+  std::string body = comp < 0 ? join(0, npieces) : join(0, comp) + "::" + join(comp, npieces);
+  if (v4) {
+    std::string q;
+    for (int i = 0; i < 4; i++) {
+      if (i) q += ".";
+      q += std::to_string(r.chance(1, 10) ? r.below(400) : r.below(256));
+      if (r.chance(1, 30)) q += "0";
+    }
+    if (!body.empty() && body.back() != ':') body += ":";
+    body += q;
+  }
+  if (r.chance(1, 15) && !body.empty()) body[r.below(uint32_t(body.size()))] = ":.%g]/"[r.below(6)];
+  return "[" + body + "]";
+}
+// Domain that mixes labels needing IDNA mapping with labels that are already Punycode ("ü.xn--bcher-kva.example"):
+// the only inputs that reach the re-validation of xn-- labels inside a non-ASCII conversion.
+inline std::string gen_mixed_idn_host(Rng& r) {
+  static const char* const puny[] = {"xn--bcher-kva", "xn--9ca", "xn--mnchen-3ya", "xn--4ca", "xn--kgbechtv", "xn--nxasmq6b",
+                                     "XN--BCHER-KVA", "xn--a", "xn--ls8h", "xn--80ak6aa92e"};
+  static const uint32_t cps[] = {0xFC, 0xE9, 0xDF, 0x3C2, 0x628, 0x3316, 0xFF21, 0x200D, 0x130, 0x1F600};
+  std::string o;
+  int n = r.range(2, 4);
+  bool have_u = false, have_p = false;
+  for (int i = 0; i < n; i++) {
+    if (i) o += r.chance(1, 8) ? "\xe3\x80\x82" : ".";
+    uint32_t k = r.below(3);
+    if (i == n - 1 && !have_u) k = 0;
+    if (i == n - 2 && !have_p) k = 1;
+    if (k == 0) {
+      o += gen_label(r, r.range(0, 3));
+      append_utf8(o, pick(r, cps));
+      o += gen_label(r, r.range(0, 2));
+      have_u = true;
+    } else if (k == 1) {
+      o += pick(r, puny);
+      have_p = true;
+    } else {
+      o += gen_label(r, r.range(1, 6));
+    }
+  }
+  return o;
+}
+
 inline std::string gen_host(Rng& r) {
-  switch (r.below(17)) {
+  switch (r.below(22)) {
+    case 17: case 18: return gen_ipv4ish_host(r);
+    case 19: case 20: return gen_ipv6_host(r);
+    case 21: return gen_mixed_idn_host(r);
     case 0: case 1: case 2: {  // ascii domain, lengths straddling 16/32
       static const uint32_t lens[] = {1, 3, 7, 14, 15, 16, 17, 30, 31, 32, 33, 63};
       std::string o = gen_label(r, pick(r, lens));
